@@ -327,7 +327,7 @@ fn enumerate_faults(r: &HistResult, seed: u64, thorough: bool, out: &mut WorkerO
                     if ci % 2 == 0 {
                         b2.truncate(*cut);
                     } else if *cut < b2.len() {
-                        b2[*cut] = [b'<', b'>', b'&', b'"', b'X', 0xff][ci % 6];
+                        b2[*cut] = [b'<', b'>', b'&', b'"', b'X', 0xff, b'?', b' ', b'=', b'!'][(ci / 2) % 10];
                     }
                     variant.text.clear();
                     variant.hex.clear();
